@@ -946,6 +946,16 @@ def run_api(ctx):
     elif "idle_call_stack_panic" in res[0].get("api", {}):
         failures.append({"key": "panic:api:idle-call-stack", "what": "Evaluator::call_stack() on the idle evaluator (after a failed evaluation, call_stack_count() == 0) panics: %s"
                          % res[0]["api"]["idle_call_stack_panic"], "replay": {"kind": "case", "case": strip_case(case)}})
+    # host Module::get after an evaluation that failed in scope resolution (names registered, slots never allocated);
+    # no probe here: a later successful evaluation would allocate the slots
+    case2 = {"kind": "run", "files": [{"name": "s0.star", "src": "x = 1\nundefined_name\n"}], "probe": None, "api_module_get": "x"}
+    res2, deaths2 = run_resilient(ctx, [case2], "api2")
+    if deaths2 or not res2[0]:
+        failures.append({"key": "%s:api" % (deaths2[0][1] if deaths2 else "no-result"), "what": "API case died", "replay": {"kind": "case", "case": case2}})
+    elif "module_get_panic" in res2[0].get("api", {}):
+        failures.append({"key": "panic:api:module-get-after-scope-error",
+                         "what": "Module::get(\"x\") after eval_module of `x = 1; undefined_name` failed with a scope error panics: %s" % res2[0]["api"]["module_get_panic"],
+                         "replay": {"kind": "case", "case": case2}})
     return failures
 
 
